@@ -85,7 +85,7 @@ def _work(args):
         'evals': 0, 'cases': 0, 'nt_keys': [], 'nt_count': 0,
         'states': set(), 'transitions': set(),
         'outcomes': collections.Counter(), 'counters': collections.Counter(),
-        'violations': [], 'extra': [], 'harness': [], 'samples': [],
+        'vclasses': {}, 'extra': [], 'harness': [], 'samples': [],
     }
     for case in chunk:
         try:
@@ -118,10 +118,15 @@ def _work(args):
         for k, v in (res.get('counters') or {}).items():
             out['counters'][k] += v
         for v in res.get('violations') or ():
-            if len(out['violations']) < 40:
-                v = dict(v)
-                v.setdefault('case', case)
-                out['violations'].append(v)
+            key = canon([v.get('clause'), v.get('sig')])
+            if key not in out['vclasses']:
+                if len(out['vclasses']) < 2000:
+                    v = dict(v)
+                    v.setdefault('case', case)
+                    out['vclasses'][key] = [v, 1]
+            else:
+                out['vclasses'][key][1] += 1
+        if res.get('violations'):
             out['counters']['violating_executions'] += 1
         if 'extra' in res:
             out['extra'].append(res['extra'])
@@ -142,7 +147,8 @@ class Agg:
         self.transitions = set()
         self.outcomes = collections.Counter()
         self.counters = collections.Counter()
-        self.violations = []
+        self.violations = []      # extra ones from mod.finish()
+        self.vclasses = {}
         self.extra = []
         self.harness = []
         self.samples = []
@@ -157,8 +163,13 @@ class Agg:
         self.transitions |= out['transitions']
         self.outcomes.update(out['outcomes'])
         self.counters.update(out['counters'])
-        if len(self.violations) < 400:
-            self.violations.extend(out['violations'])
+        for key, (v, n) in out['vclasses'].items():
+            cur = self.vclasses.get(key)
+            if cur is None:
+                if len(self.vclasses) < 20000:
+                    self.vclasses[key] = [v, n]
+            else:
+                cur[1] += n
         self.extra.extend(out['extra'])
         self.harness.extend(out['harness'])
         if len(self.rich_samples) < 4:
@@ -262,20 +273,16 @@ def finalize(mod, tier, seed, agg, capped, wall):
                        harness=True)
         return 2
     known = load_known()
-    seen_sig = {}
     known_hit = collections.OrderedDict()
     fresh = []
-    for v in agg.violations:
+    allv = [(v, n) for v, n in agg.vclasses.values()] + [(v, 1) for v in agg.violations]
+    for v, n in allv:
         k = match_known(pid, v, known)
         if k is not None:
             key = canon([k['clause'], k.get('match')])
-            known_hit.setdefault(key, [k, 0])[1] += 1
+            known_hit.setdefault(key, [k, 0])[1] += n
             continue
-        key = canon([v.get('clause'), v.get('sig')])
-        if key in seen_sig:
-            seen_sig[key][1] += 1
-            continue
-        seen_sig[key] = [v, 1]
+        v['_n'] = n
         fresh.append(v)
     for k, n in known_hit.values():
         print('KNOWN-FINDING: property=%s %s [clause=%s, %d witnessing executions]'
